@@ -8,6 +8,7 @@ import Orda.Model.Wired
 import Orda.Proofs.ProtocolJoin
 import Orda.Proofs.ProtoNet
 import Orda.Proofs.ServerRefine
+import Orda.Proofs.ServerRefineJoin
 namespace Orda.Props.C07
 open Orda
 
@@ -148,5 +149,16 @@ theorem store_server_never_refuses_a_retry {tg : Target} {cuids : List String} {
     (hr : r ∈ T.reqs) (hi : T.clients[r.i]? = some cl) (hcu : cd.cuid = cl.cuid) (hv : cd.typ ≠ 2) (hp : PackOf tg r p) :
     (processPack T.st cd tg.col p).resp.error = false :=
   store_never_refuses g0 h0 run hr hi hcu hv hp
+
+open Orda.SRef Orda.SRefJ in
+/-- store level, entry phase included: once the datatype exists, no normal request that a joined client has ever sent is answered
+    with an error pack, whatever was created, subscribed, lost, repeated or delayed before -/
+theorem store_server_never_refuses_a_retry_with_late_joiners {tg : TargetJ} {cuids : List (String × Bool)} {T0 T : SSysJ}
+    (g0 : GoodJ tg T0) (h0 : JReach cuids (T0.abs tg)) (run : SRunJ tg T0 T)
+    {r : JReq} {cl : JClient} {cd : ClientDoc} {p : Pack} {d : DatatypeDoc} (hex : T.st.getDatatype tg.duid = some d)
+    (hr : r ∈ T.reqs) (hk : r.kind = .normal) (hi : T.clients[r.i]? = some cl) (hcu : cd.cuid = cl.base.cuid)
+    (hv : cd.typ ≠ 2) (hp : PackOfJ tg r p) :
+    (processPack T.st cd tg.col p).resp.error = false :=
+  store_never_refuses_join g0 h0 run hex hr hk hi hcu hv hp
 
 end Orda.Props.C07
